@@ -1,6 +1,7 @@
 package main
 
 import (
+	"encoding/json"
 	"fmt"
 	"reflect"
 	"sort"
@@ -35,6 +36,8 @@ type Box interface {
 	// by at most one element (used by snapshot / independence checks).
 	Slices() []SliceObs
 	ContainerName() string
+	// AdoptRef copies the reference model of another box of the same system.
+	AdoptRef(from Box)
 }
 
 // SliceObs is a slice-returning observer.
@@ -151,4 +154,126 @@ func pureAll(opts CanonOpts, obj any, rs []Reader, props []string) *Viol {
 	return viol(append(append([]string{}, props...), "C15", "C18"), "invariant", "the read-only calls together changed the container's state (no single call reproduces it): before %s", clip(before, 400))
 }
 
-func kvLoadRef[K comparable, V comparable](b *kvBox[K, V], data []byte) bool { return false }
+func (b *seqBox[T]) AdoptRef(f Box)  { b.ref = append([]T{}, f.(*seqBox[T]).ref...) }
+func (b *listBox[T]) AdoptRef(f Box) { b.ref = append([]T{}, f.(*listBox[T]).ref...) }
+func (b *heapBox[T]) AdoptRef(f Box) { b.ref = append([]T{}, f.(*heapBox[T]).ref...) }
+func (b *setBox[T]) AdoptRef(f Box) {
+	o := f.(*setBox[T])
+	b.ref = append([]T{}, o.ref...)
+	b.reps = nil
+	for _, r := range o.reps {
+		b.reps = append(b.reps, append([]T{}, r...))
+	}
+}
+func (b *kvBox[K, V]) AdoptRef(f Box) {
+	o := f.(*kvBox[K, V])
+	b.ref = nil
+	for _, e := range o.ref {
+		b.ref = append(b.ref, kvEnt[K, V]{k: e.k, v: e.v, reps: append([]K{}, e.reps...)})
+	}
+	b.nextV, b.nextR = o.nextV, o.nextR
+}
+
+// kvLoadRef: what a JSON object denotes for a key-value container.  Relational
+// where the library iterates a Go map (bidi maps: the fold of Put over the decoded
+// pairs in SOME order) or where the text repeats a key (linked map: either
+// occurrence fixes the position): the candidate that matches the real container
+// is adopted, otherwise the first (and the comparison that follows reports it).
+func kvLoadRef[K comparable, V comparable](b *kvBox[K, V], data []byte) bool {
+	var m map[K]V
+	if err := json.Unmarshal(data, &m); err != nil {
+		return false
+	}
+	// textual key order, mapped to K
+	type occ struct {
+		k     K
+		first int
+		last  int
+	}
+	var occs []occ
+	if names, err := jsonOrder(data); err == nil {
+		for pos, nm := range names {
+			qn, _ := json.Marshal(nm)
+			var one map[K]json.RawMessage
+			if json.Unmarshal([]byte("{"+string(qn)+":null}"), &one) != nil {
+				continue
+			}
+			for k := range one {
+				found := false
+				for i := range occs {
+					if occs[i].k == k {
+						occs[i].last = pos
+						found = true
+					}
+				}
+				if !found {
+					occs = append(occs, occ{k, pos, pos})
+				}
+			}
+		}
+	}
+	fold := func(keys []K) []kvEnt[K, V] {
+		saved := b.ref
+		b.ref = nil
+		for _, k := range keys {
+			b.refPut(k, m[k])
+		}
+		r := b.ref
+		b.ref = saved
+		return r
+	}
+	var cands [][]kvEnt[K, V]
+	byFirst := append([]occ{}, occs...)
+	sort.SliceStable(byFirst, func(i, j int) bool { return byFirst[i].first < byFirst[j].first })
+	byLast := append([]occ{}, occs...)
+	sort.SliceStable(byLast, func(i, j int) bool { return byLast[i].last < byLast[j].last })
+	keysOf := func(o []occ) []K {
+		ks := make([]K, 0, len(o))
+		for _, x := range o {
+			if _, ok := m[x.k]; ok {
+				ks = append(ks, x.k)
+			}
+		}
+		return ks
+	}
+	kl, kf := keysOf(byLast), keysOf(byFirst)
+	if len(kl) != len(m) {
+		// could not recover the textual order (should not happen): fall back to map order
+		kl = kl[:0]
+		for k := range m {
+			kl = append(kl, k)
+		}
+		kf = kl
+	}
+	if b.sys.bidi() && len(kl) <= 5 {
+		permute(kl, func(p []K) { cands = append(cands, fold(p)) })
+	} else {
+		cands = append(cands, fold(kl), fold(kf))
+	}
+	for _, c := range cands {
+		b.ref = c
+		if b.content() == nil {
+			return true
+		}
+	}
+	b.ref = cands[0]
+	return true
+}
+
+func permute[T any](xs []T, f func([]T)) {
+	n := len(xs)
+	p := append([]T{}, xs...)
+	var rec func(i int)
+	rec = func(i int) {
+		if i == n {
+			f(append([]T{}, p...))
+			return
+		}
+		for j := i; j < n; j++ {
+			p[i], p[j] = p[j], p[i]
+			rec(i + 1)
+			p[i], p[j] = p[j], p[i]
+		}
+	}
+	rec(0)
+}
